@@ -142,9 +142,20 @@ impl Check for C13 {
             }
             sx.extend([[1.25, 0., 0., 0.8, 0.1, 0.1], [0., -1., 1., 0., 0., 4.], [-1., 0., 0., -1., 5., 4.], [0.7071068, 0.7071068, -0.7071068, 0.7071068, 1., 1.], [4., 0., 0., 4., 0., 0.], [0.125, 0., 0., 0.125, 0., 0.]]);
             imgs.extend([(3, 3), (5, 2), (1, 4)]);
+            // every rotation by a multiple of 15 degrees at three scales, as a source transform
+            for k in 1..24 {
+                let a = (k as f32) * 15f32.to_radians();
+                for sc in [0.5f32, 1.0, 2.5] {
+                    sx.push([a.cos() * sc, a.sin() * sc, -a.sin() * sc, a.cos() * sc, 0.3, 0.7]);
+                }
+            }
+            for k in [1, 5, 7, 11] {
+                let a = (k as f32) * 15f32.to_radians();
+                ctm.push([a.cos(), a.sin(), -a.sin(), a.cos(), 3., 2.]);
+            }
         }
-        let alphas: Vec<f32> = vec![1.0, 0.5, 0.0];
-        run.bound("fills", format!("{} images x 2 extend x 2 filter x 3 alphas x {} CTMs x {} source transforms x {} surfaces", imgs.len(), ctm.len(), sx.len(), surfaces.len()));
+        let alphas: Vec<f32> = if deep { vec![1.0, 0.75, 0.5, 0.25, 1.0 / 255.0, 0.0] } else { vec![1.0, 0.5, 0.0] };
+        run.bound("fills", format!("{} images x 2 extend x 2 filter x {} alphas x {} CTMs x {} source transforms x {} surfaces", imgs.len(), alphas.len(), ctm.len(), sx.len(), surfaces.len()));
         run.par(ctm.len() * sx.len(), |s, l| {
             let c = ctm[s / sx.len()];
             let t = sx[s % sx.len()];
